@@ -169,7 +169,9 @@ def cmd_run(args):
     import_praatio()
     chunk = max(50, min(4000, runs // (workers * 8) or 1))
     bounds = [(lo, min(runs, lo + chunk)) for lo in range(0, runs, chunk)]
-    wall = int(os.environ.get("VERIF_CHUNK_WALL", "900"))
+    # a worker stuck in one chunk (an endless loop in the tree under test) is killed by faulthandler:
+    # the pool breaks and the check exits 2 - never 0
+    wall = int(os.environ.get("VERIF_CHUNK_WALL", "300" if tier == "quick" else "1200"))
     agg = {"stats": Counter(), "fps": set(), "nontriv": set(), "states": set(), "viols": {}, "samples": [],
            "runs": 0, "steps": 0}
     ctx = multiprocessing.get_context("fork")
